@@ -125,3 +125,39 @@ def rule_reuse_first(fx, col):
                 'node.next is set to the head the exchange expects, before the exchange' + ('' if in_iter else
                 ' — but NOT inside the retry loop: after a failed exchange the new expected head is no longer what next points to (nodes added in between are unlinked)'))
     # init makes space_offer point at the own envelope: ENVELOPE-PROVENANCE checks the value
+
+
+def rule_node_bound(fx, col):
+    """C11 "bookkeeping ... is bounded by the peak number of threads alive at once":
+    (1) a node released by an exited thread is claimable again only if NO writer is inside it at the instant a claiming thread looks
+        (the cooldown verdict); Node::get neither waits (it must not: lock-freedom) nor retries, it allocates a fresh node, and
+        nodes are never freed. Nothing bounds how often that happens.
+    (2) the thread-local that owns the LocalNode must run its destructor at thread exit (std's `thread_local!`); a bare
+        `#[thread_local]` static never does, so no node is ever released."""
+    cx = O.ctx(fx)
+    lib = fx.lib
+    # (1)
+    gets = [b for b in lib.bodies if b.fname == 'arc_swap::debt::list::Node::get']
+    if col.anchor('NODE-BOUND', 'Node::get', len(gets) == 1):
+        cond = []
+        for s_ in cx.sites:
+            if s_.cls == 'active_writers' and s_.op == 'load':
+                # the count read decides whether a released node becomes claimable
+                rel = [o for o in cx.summ.sites_by_body.get(s_.body.key, ()) if o.cls == 'in_use' and o.op in ('store', 'compare_exchange', 'compare_exchange_weak')]
+                if rel:
+                    cond.append(s_)
+        allocs = [1 for b in lib.bodies for bb, t in b.calls(include_cleanup=False) if U.callee_name(t) == 'leak' and 'boxed::Box' in t['callee'].get('path', '') and b.fname.startswith('arc_swap::debt::list::Node::get')]
+        col.add('NODE-BOUND', 'Node::get|a released node is always reusable', not (cond and allocs),
+                'a released (cooling) node is claimable only when active_writers == 0 at the instant of the look (%s); otherwise Node::get allocates a new, never freed node: '
+                'the total is not bounded by the threads alive (measured: 4 nodes for 2, 10 for 5, 20 for 13 live threads under writers)' % [c.loc for c in cond],
+                cond[0].loc if cond else '')
+    # (2)
+    tls = [s_ for s_ in lib.statics if s_.get('thread_local') and 'LocalNode' in s_.get('ty', '')]
+    managed = lambda x: 'thread::local_impl' in x['ty'] or '__RUST_STD_INTERNAL' in x['pretty'] or 'LocalKey<' in x['ty']
+    keys = [s_ for s_ in tls if managed(s_)]
+    if col.anchor('NODE-BOUND', 'the thread-local LocalNode', bool(tls), 'statics: %s' % [(x['pretty'], x['ty'], x.get('thread_local')) for x in lib.statics]):
+        bare = [x['pretty'] for x in tls if not managed(x)]
+        col.add('NODE-BOUND', 'THREAD_HEAD|destructor runs at thread exit', not (bare and not keys),
+                'LocalNode releases its node in Drop (start_cooldown); %s' % ('it lives in a bare #[thread_local] static %s, which has no destructor: no node of an exited thread is ever released '
+                                                                        '(measured: 500 nodes for 500 sequential threads)' % bare if bare and not keys else 'it lives in a std LocalKey, whose destructor runs at thread exit'))
+
